@@ -292,12 +292,12 @@ def run_with_fifos(cmd, d, env, case, timeout):
                 time.sleep(0.002 if e.errno == errno.ENXIO else 0.05); continue     # ENXIO: nobody reads yet; anything else (descriptor table full on a loaded machine ...): try again
             try:
                 os.set_blocking(fd, True)
-                # short pieces only for the head of the file (the reader's first reads see them one by one); the rest in large writes, so that the
+                # short pieces only for the first 64 bytes of the file (the reader's first reads see them one by one); the rest in large writes, so that the
                 # delivery of a big file never takes long on a loaded machine
                 view = memoryview(data); piece = case.get("fifo_piece") or 65536; sent = 0
                 while view:
-                    n = os.write(fd, view[:piece if sent < 256 else 65536]); view = view[n:]; sent += n
-                    if piece < 64 and sent <= 256: time.sleep(0.0002)
+                    n = os.write(fd, view[:piece if sent < 64 else 65536]); view = view[n:]; sent += n
+                    if piece < 64 and sent <= 64: time.sleep(0.0002)
             except OSError: pass
             finally: os.close(fd)
             return
